@@ -411,34 +411,46 @@ func (f *fz) genSTUN() {
 	}
 }
 
-// genBFD feeds BFD control messages to routers whose links have BFD sessions.
-// The sessions are not running (nothing drains their message queue of 10), so
-// a fresh router is built for every 8 messages.
-func (f *fz) genBFD(rounds int) {
+// genBFD feeds BFD control messages to a router whose links have BFD sessions.
+// The sessions are not running (nothing drains a session's queue of 10
+// messages, an 11th would block), so a fresh router is built per call and
+// every link with a session gets at most 8 messages.
+func (f *fz) genBFD(round int) {
 	rng := f.rng
 	saveS, saveV := f.stars, f.variants
 	defer func() { f.stars, f.variants = saveS, saveV }()
-	for r := 0; r < rounds; r++ {
-		v := starVariant{Idx: 100 + f.rng.IntN(4), Reuse: r%2 == 0, Auth: r%4 < 2, BFD: true}
-		s := newFuzzStar(f.r, v)
-		f.stars, f.variants = []*rfix.Star{s}, []starVariant{v}
+	v := starVariant{Idx: 100 + rng.IntN(4), Reuse: round%2 == 0, Auth: round%4 < 2, BFD: true}
+	s := newFuzzStar(f.r, v)
+	f.stars, f.variants = []*rfix.Star{s}, []starVariant{v}
+	seen := map[router.Link]bool{}
+	for _, fi := range s.Cfg.Ifs {
+		l := s.Link(fi.ID)
+		if l == nil || l.BFDSession() == nil || seen[l] {
+			continue
+		}
+		seen[l] = true
 		for i := 0; i < 8; i++ {
 			var b []byte
-			var in rfix.Ingress
-			if rng.IntN(2) == 0 { // sibling link: empty path
-				fi, _ := s.FuzzPickIf(rng, -1, 0, 0)
+			in := rfix.Ingress{IfID: fi.ID}
+			if !fi.Owned { // sibling link: empty path
 				sib := rfix.SiblingAddr(fi.Sibling).Addr()
 				rs := &rawSpec{TC: 0xb8, Flow: 0xdead, PathType: 0, DstIA: uint64(s.Cfg.IA), SrcIA: uint64(s.Cfg.IA),
 					L4: protoBFD, L4Bytes: bfdBytes(rng)}
 				rs.SrcHost, rs.ST = hostBytes(addr.HostIP(sib))
 				rs.DstHost, rs.DT = hostBytes(addr.HostIP(rfix.SiblingAddr(0).Addr()))
-				b, in = rs.Build(), rfix.Ingress{IfID: fi.ID}
-			} else { // external link: one-hop path
-				b, in = ohpPacket(rng, s, time.Now().Unix(), false)
-				c := walkChain(b)
-				b = append(b[:c.l4Off], bfdBytes(rng)...)
-				b[c.lastNextOff] = protoBFD
-				binary.BigEndian.PutUint16(b[6:], uint16(len(b)-int(b[5])*4))
+				b = rs.Build()
+			} else { // external link: one-hop path from the neighbour
+				p := make([]byte, 32)
+				p[0] = 1
+				binary.BigEndian.PutUint32(p[4:], uint32(time.Now().Unix()-10))
+				p[9] = 63
+				binary.BigEndian.PutUint16(p[12:], uint16(1+rng.IntN(65535)))
+				copy(p[14:], randBytes(rng, 6))
+				rs := &rawSpec{TC: 0xb8, Flow: 0xdead, PathType: 2, DstIA: uint64(s.Cfg.IA), SrcIA: uint64(fi.Remote),
+					Path: p, L4: protoBFD, L4Bytes: bfdBytes(rng)}
+				rs.SrcHost, rs.ST = hostBytes(addr.HostIP(rfix.ExtRemoteAddr(fi.ID).Addr()))
+				rs.DstHost, rs.DT = hostBytes(addr.HostIP(rfix.ExtLocalAddr(fi.ID).Addr()))
+				b = rs.Build()
 			}
 			name := "bfd"
 			if rng.IntN(3) == 0 {
@@ -499,8 +511,8 @@ func checkC08(r *mon.Run) {
 				if i%2 == 0 {
 					f.genSTUN()
 				}
-				if i%512 == 0 {
-					f.genBFD(2)
+				if i%1024 == 0 {
+					f.genBFD(i / 1024)
 					f.a.flush()
 				}
 				if f.r.Violations() > 200 {
